@@ -20,11 +20,16 @@ type Fault struct {
 	Action string // stall exit0 exit1 sig9 (launch: enoent eacces)
 	At     int    // invocation during which the fault strikes (1 = first, includes initialisation), counted per process
 	Phase  string // the fault applies to the first process of its program launched in this World.Phase ("" = default phase)
+	// Twice (runtime init-error only): the runtime posts a second, different /init/error (which is refused) before it acts
+	Twice bool
 }
 
 func (f *Fault) String() string {
 	if f == nil {
 		return "none"
+	}
+	if f.Twice {
+		return fmt.Sprintf("%s/%s-twice/%s@%d", f.Who, f.Point, f.Action, f.At)
 	}
 	return fmt.Sprintf("%s/%s/%s@%d", f.Who, f.Point, f.Action, f.At)
 }
@@ -131,6 +136,9 @@ func (s Scen) Config() *stack.Config {
 		mine := f != nil
 		if mine && f.Point == "init-error" {
 			rt.InitError("Runtime.InitFailed", InitErrorPayload)
+			if f.Twice {
+				rt.InitError("Runtime.SecondThoughts", []byte(`{"errorMessage":"a second report, refused, longer than the first one so that it would overwrite all of it","errorType":"Runtime.SecondThoughts","stackTrace":["x","y","z"]}`))
+			}
 			act(rt, f.Action)
 		}
 		if mine && f.Point == "before-next" {
